@@ -241,10 +241,25 @@ theorem sm_logsoftmax_fn (x : NDArray ℝ) (ax : Nat) (i : Idx) (hn : x.shape.ge
   rw [Real.log_div hS.ne' (Real.exp_ne_zero _), Real.log_exp]
   ring
 
+/-! ### the 0-d branch (`dim` 0 / −1 on a 0-d operand) against the general branch -/
+
+theorem sm_not_zeroDim_of_normAxis {s : Shape} {axis : Int} {ax : Nat}
+    (hax : normAxis s.length axis = some ax) : ¬ zeroDimAxis s axis := by
+  rintro ⟨hs, -⟩
+  have := Proofs.Adjoint.normAxis_lt hax
+  simp [hs] at this
+
+theorem sm_not_zeroDim_of_length {s : Shape} {axis : Int} (h : s.length ≠ 0) : ¬ zeroDimAxis s axis := by
+  rintro ⟨hs, -⟩
+  simp [hs] at h
+
+theorem sm_not_zeroDim_one (s : Shape) : ¬ zeroDimAxis s 1 := by
+  rintro ⟨-, h | h⟩ <;> omega
+
 theorem sm_softmaxForward_eq (x : NDArray ℝ) (axis : Int) (ax : Nat)
     (hax : normAxis x.shape.length axis = some ax) (hn : x.shape.getD ax 0 ≠ 0) :
     softmaxForward x axis = some (ofFn x.shape (sm_sig x.get (x.shape.getD ax 0) ax)) := by
-  simp only [softmaxForward, hax]
+  simp only [softmaxForward, if_neg (sm_not_zeroDim_of_normAxis hax), hax]
   simp only [Option.bind_eq_bind, Option.bind_some, Option.pure_def]
   rw [if_neg hn]
   exact congrArg (fun f => some (ofFn x.shape f)) (funext fun i => sm_softmax_fn x ax i)
@@ -252,14 +267,81 @@ theorem sm_softmaxForward_eq (x : NDArray ℝ) (axis : Int) (ax : Nat)
 theorem sm_logSoftmaxForward_eq (x : NDArray ℝ) (axis : Int) (ax : Nat)
     (hax : normAxis x.shape.length axis = some ax) (hn : x.shape.getD ax 0 ≠ 0) :
     logSoftmaxForward x axis = some (ofFn x.shape (sm_ls x.get (x.shape.getD ax 0) ax)) := by
-  simp only [logSoftmaxForward, hax]
+  simp only [logSoftmaxForward, if_neg (sm_not_zeroDim_of_normAxis hax), hax]
   simp only [Option.bind_eq_bind, Option.bind_some, Option.pure_def]
   rw [if_neg hn]
   exact congrArg (fun f => some (ofFn x.shape f)) (funext fun i => sm_logsoftmax_fn x ax i hn)
 
-theorem sm_softmaxForward_some (a s : NDArray ℝ) (axis : Int) (h : softmaxForward a axis = some s) :
+/-- 0-d operand, `dim` 0 / −1: `exp(x − x) / exp(x − x) = 1` -/
+theorem sm_softmaxForward_zero (x : NDArray ℝ) (axis : Int) (h0 : zeroDimAxis x.shape axis) :
+    softmaxForward x axis = some (ofFn [] (fun _ => (1 : ℝ))) := by
+  simp only [softmaxForward, if_pos h0]
+  exact congrArg (fun f => some (ofFn [] f)) (funext fun _ => div_self (Real.exp_ne_zero _))
+
+/-- 0-d operand, `dim` 0 / −1: `x − (x + log (exp (x − x))) = 0` -/
+theorem sm_logSoftmaxForward_zero (x : NDArray ℝ) (axis : Int) (h0 : zeroDimAxis x.shape axis) :
+    logSoftmaxForward x axis = some (ofFn [] (fun _ => (0 : ℝ))) := by
+  simp only [logSoftmaxForward, if_pos h0]
+  refine congrArg (fun f => some (ofFn [] f)) (funext fun _ => ?_)
+  show x.get [] - (x.get [] + Real.log (Real.exp (x.get [] - x.get []))) = 0
+  rw [Real.log_exp]
+  ring
+
+theorem sm_softmaxBackward_zero (g s : NDArray ℝ) (axis : Int) (h0 : zeroDimAxis s.shape axis) :
+    softmaxBackward g s axis = some (ofFn [] (fun _ => s.get [] * (g.get [] - g.get [] * s.get []))) := by
+  simp only [softmaxBackward, if_pos h0]
+
+theorem sm_logSoftmaxBackward_zero (g ls : NDArray ℝ) (axis : Int) (h0 : zeroDimAxis ls.shape axis) :
+    logSoftmaxBackward g ls axis = some (ofFn [] (fun _ => g.get [] - Real.exp (ls.get []) * g.get [])) := by
+  simp only [logSoftmaxBackward, if_pos h0]
+  rfl
+
+/-- **softmax of a 0-d operand along dim 0 / −1 is `1`** (`exp(x − x) / exp(x − x)`; shape `()`) -/
+theorem softmax_zero_dim (x : NDArray ℝ) (hs : x.shape = []) (d : Int) (hd : d = 0 ∨ d = -1) :
+    softmaxForward x d = some ⟨[], [1]⟩ := sm_softmaxForward_zero x d ⟨hs, hd⟩
+
+/-- **log_softmax of a 0-d operand along dim 0 / −1 is `0`** (`x − (x + log (exp (x − x)))`; shape `()`) -/
+theorem log_softmax_zero_dim (x : NDArray ℝ) (hs : x.shape = []) (d : Int) (hd : d = 0 ∨ d = -1) :
+    logSoftmaxForward x d = some ⟨[], [0]⟩ := sm_logSoftmaxForward_zero x d ⟨hs, hd⟩
+
+/-- the backward kernel on a 0-d saved output `s`: `s·(g − g·s)` … -/
+theorem softmax_zero_dim_backward (g s : NDArray ℝ) (hs : s.shape = []) (d : Int) (hd : d = 0 ∨ d = -1) :
+    softmaxBackward g s d = some ⟨[], [s.get [] * (g.get [] - g.get [] * s.get [])]⟩ :=
+  sm_softmaxBackward_zero g s d ⟨hs, hd⟩
+
+/-- … which, at the saved output of the forward (`s = 1`), is `0` for EVERY upstream gradient -/
+theorem softmax_zero_dim_grad (x s g : NDArray ℝ) (hs : x.shape = []) (d : Int) (hd : d = 0 ∨ d = -1)
+    (h : softmaxForward x d = some s) : softmaxBackward g s d = some ⟨[], [0]⟩ := by
+  rw [softmax_zero_dim x hs d hd] at h
+  obtain rfl := Option.some.inj h
+  rw [softmax_zero_dim_backward g _ rfl d hd]
+  have h1 : (⟨[], [1]⟩ : NDArray ℝ).get [] = 1 := rfl
+  rw [h1]
+  congr 3
+  ring
+
+/-- the backward kernel on a 0-d saved output `ls`: `g − exp(ls)·g` … -/
+theorem log_softmax_zero_dim_backward (g ls : NDArray ℝ) (hs : ls.shape = []) (d : Int) (hd : d = 0 ∨ d = -1) :
+    logSoftmaxBackward g ls d = some ⟨[], [g.get [] - Real.exp (ls.get []) * g.get []]⟩ :=
+  sm_logSoftmaxBackward_zero g ls d ⟨hs, hd⟩
+
+/-- … which, at the saved output of the forward (`ls = 0`), is `0` for EVERY upstream gradient -/
+theorem log_softmax_zero_dim_grad (x ls g : NDArray ℝ) (hs : x.shape = []) (d : Int) (hd : d = 0 ∨ d = -1)
+    (h : logSoftmaxForward x d = some ls) : logSoftmaxBackward g ls d = some ⟨[], [0]⟩ := by
+  rw [log_softmax_zero_dim x hs d hd] at h
+  obtain rfl := Option.some.inj h
+  rw [log_softmax_zero_dim_backward g _ rfl d hd]
+  have h1 : (⟨[], [0]⟩ : NDArray ℝ).get [] = 0 := rfl
+  rw [h1, Real.exp_zero]
+  congr 3
+  ring
+
+/-- an accepted call that is not the 0-d case: `dim` normalises to a non-empty axis -/
+theorem sm_softmaxForward_some (a s : NDArray ℝ) (axis : Int) (h0 : ¬ zeroDimAxis a.shape axis)
+    (h : softmaxForward a axis = some s) :
     ∃ ax, normAxis a.shape.length axis = some ax ∧ a.shape.getD ax 0 ≠ 0 := by
   unfold softmaxForward at h
+  rw [if_neg h0] at h
   cases hax : normAxis a.shape.length axis with
   | none => simp [hax] at h
   | some ax =>
@@ -267,9 +349,11 @@ theorem sm_softmaxForward_some (a s : NDArray ℝ) (axis : Int) (h : softmaxForw
     simp [hax] at h
     exact h.1 (by simpa [List.getD_eq_getElem?_getD] using hn)
 
-theorem sm_logSoftmaxForward_some (a s : NDArray ℝ) (axis : Int) (h : logSoftmaxForward a axis = some s) :
+theorem sm_logSoftmaxForward_some (a s : NDArray ℝ) (axis : Int) (h0 : ¬ zeroDimAxis a.shape axis)
+    (h : logSoftmaxForward a axis = some s) :
     ∃ ax, normAxis a.shape.length axis = some ax ∧ a.shape.getD ax 0 ≠ 0 := by
   unfold logSoftmaxForward at h
+  rw [if_neg h0] at h
   cases hax : normAxis a.shape.length axis with
   | none => simp [hax] at h
   | some ax =>
